@@ -8,7 +8,7 @@
        the C08 theorems (nothing is assumed about the pool);
      - hence C08_path_equiv and C08_path_qubo hold for it: its 0-1 program attains exactly the costs of the route
        partitions, and the minimisers of its default-penalty QUBO are the indicator vectors of the optimal partitions;
-     - the cost 5 that test_small.py hard-codes is attained by the single route D-1-2-3-D (a partition). *)
+     - the optimum is 5 (what test_small.py hard-codes), attained by the single route D-1-2-3-D. *)
 From Coq Require Import ZArith List Lia Bool.
 From VQ Require Import Base LinAlg Vrptw Vrptw_facts Path Path_facts Penalty Penalty_facts Routes Routes_facts.
 From VQP Require Import C08.
@@ -106,6 +106,61 @@ Proof.
     destruct k as [|[|[|[|k]]]]; try lia; vm_compute; reflexivity.
 Qed.
 Print Assumptions C08_small_gen_partition_5.
+
+(* 5 is the OPTIMUM (what test_small.py hard-codes).  Lower bound by a dual argument read off the pool: every valid route r
+   satisfies 2 cost(r) >= 5 [2 on r] + 5 [3 on r] (checked on the eleven routes, which are all valid routes), and a partition
+   visits customers 2 and 3 exactly once each *)
+Lemma small_dual_bound r :
+  In r (proutes small_st) -> 5 * on_route 2 r + 5 * on_route 3 r <= 2 * route_cost (pg small_st) r.
+Proof.
+  assert (H : forallb (fun r => 5 * on_route 2 r + 5 * on_route 3 r <=? 2 * route_cost (pg small_st) r) (proutes small_st) = true)
+    by (vm_compute; reflexivity).
+  rewrite forallb_forall in H. intros Hin. apply Z.leb_le. apply H. exact Hin.
+Qed.
+
+Lemma sum_dual R : sumZ (map (fun r => 5 * on_route 2 r + 5 * on_route 3 r) R) = 5 * visits R 2 + 5 * visits R 3.
+Proof.
+  unfold visits. induction R as [|r R IH]; [reflexivity|].
+  cbn [map]. rewrite !sumZ_cons, IH. lia.
+Qed.
+
+Lemma sum_twice (f : list nat -> Z) R : sumZ (map (fun r => 2 * f r) R) = 2 * sumZ (map f R).
+Proof. induction R as [|r R IH]; [reflexivity|]. cbn [map]. rewrite !sumZ_cons, IH. lia. Qed.
+
+(* the argument for an abstract state (so that no tactic ever looks inside the concrete one) *)
+Lemma optimum_from_dual (st : pstate) (R0 : list (list nat)) :
+  pool_complete st -> num_nodes st = 4%nat ->
+  (forall r, In r (proutes st) -> 5 * on_route 2 r + 5 * on_route 3 r <= 2 * route_cost (pg st) r) ->
+  partition st R0 -> total_cost st R0 = 5 ->
+  optimal_partition st R0 /\ forall R, optimal_partition st R -> total_cost st R = 5.
+Proof.
+  intros Hpool Hn Hdual Hp Hc.
+  assert (Hlb : forall R, partition st R -> 5 <= total_cost st R).
+  { intros R (_ & Hval & Hvis). unfold total_cost.
+    assert (H2 : visits R 2 = 1) by (apply Hvis; rewrite Hn; lia).
+    assert (H3 : visits R 3 = 1) by (apply Hvis; rewrite Hn; lia).
+    pose proof (sumZ_map_le (fun r => 5 * on_route 2 r + 5 * on_route 3 r) (fun r => 2 * route_cost (pg st) r) R) as Hle.
+    rewrite sum_dual, sum_twice, H2, H3 in Hle.
+    assert (Hall : forall r, In r R -> 5 * on_route 2 r + 5 * on_route 3 r <= 2 * route_cost (pg st) r).
+    { intros r Hin. apply Hdual. apply Hpool. rewrite Forall_forall in Hval. apply Hval. exact Hin. }
+    specialize (Hle Hall). generalize dependent (sumZ (map (route_cost (pg st)) R)). intros z Hz. lia. }
+  split.
+  - split; [exact Hp|]. intros R' HR'. rewrite Hc. apply Hlb. exact HR'.
+  - intros R (HR & Hmin). specialize (Hmin _ Hp). rewrite Hc in Hmin. specialize (Hlb _ HR). lia.
+Qed.
+
+Theorem C08_small_gen_optimum :
+  optimal_partition small_st [[0; 1; 2; 3; 0]%nat] /\
+  forall R, optimal_partition small_st R -> total_cost small_st R = 5.
+Proof.
+  apply optimum_from_dual.
+  - exact (proj2 (proj2 C08_small_gen_pool)).
+  - exact small_num_nodes.
+  - exact small_dual_bound.
+  - exact (proj1 C08_small_gen_partition_5).
+  - exact (proj2 C08_small_gen_partition_5).
+Qed.
+Print Assumptions C08_small_gen_optimum.
 
 (* ... and the default-penalty QUBO of get_path_based().get_qubo(): its minimisers over all binary vectors are exactly
    the indicator vectors of the optimal partitions, with the optimal routing cost as value *)
